@@ -6,6 +6,7 @@ import (
 	"fmt"
 	"go/types"
 	"sort"
+	"strings"
 
 	"golang.org/x/tools/go/ssa"
 )
@@ -69,8 +70,20 @@ type FuncVC struct {
 func (vc *FuncVC) addTrivial(name string) { vc.trivial[name]++ }
 
 func (vc *FuncVC) addObligation(kind string, st *State, goal, info string) {
+	pc := append([]string(nil), st.pc...)
+	for _, ax := range st.axioms {
+		rel := len(ax.syms) == 0
+		for _, s := range ax.syms {
+			if strings.Contains(goal, s) {
+				rel = true
+			}
+		}
+		if rel {
+			pc = append(pc, ax.term)
+		}
+	}
 	vc.obls = append(vc.obls, &Obligation{Name: vc.name + "#" + kind, Func: vc.name, Kind: kind, NDecl: len(vc.g.decls),
-		PC: append([]string(nil), st.pc...), Goal: goal, Info: info, Path: vc.paths})
+		PC: pc, Goal: goal, Info: info, Path: vc.paths})
 }
 
 func (vc *FuncVC) findLoops() {
@@ -265,6 +278,11 @@ func VerifyFunc(g *Gen, fn *ssa.Function, con *Contract, maxPaths int) *FuncVC {
 	// pass 2
 	st := vc.initState()
 	env := st.specEnv(vc.pkg, vc.entryVars)
+	for _, u := range con.Uses {
+		if err := assumeAxiom(st, g.DB, u); err != nil {
+			vc.errs = append(vc.errs, vc.name+": "+err.Error())
+		}
+	}
 	vc.assumeClauses(st, env, con.Requires, "requires")
 	// reachability cover of the precondition
 	vc.obls = append(vc.obls, &Obligation{Name: vc.name + "#cover[requires]", Func: vc.name, Kind: "cover[requires]", NDecl: len(g.decls),
@@ -291,6 +309,13 @@ func (vc *FuncVC) initState() *State {
 	vc.entryVars = map[string]SV{}
 	for _, p := range vc.fn.Params {
 		v := st.freshVal(p.Type(), "p."+p.Name())
+		switch u := p.Type().Underlying().(type) {
+		case *types.Slice:
+			st.belowBrk(v.Fs[0].T, mulC(v.Fs[2].T, g.P.sizeof(u.Elem())))
+			st.assume(fmt.Sprintf("(=> (= %s 0) (= %s 0))", v.Fs[0].T, v.Fs[2].T))
+		case *types.Pointer:
+			st.belowBrk(v.T, fmt.Sprint(g.P.sizeof(u.Elem())))
+		}
 		fr.regs[p] = v
 		vc.entryVars[p.Name()] = SV{v, p.Type()}
 	}
@@ -492,7 +517,7 @@ func (vc *FuncVC) loopCut(st *State, li *loopInfo, prev *ssa.BasicBlock, phis []
 			return false
 		}
 		for _, h := range sortedKeys(st.g.heapSort) {
-			if h != "$alive" {
+			if h != "$alive" && h != "$brk" {
 				st.heaps[h] = st.g.heapConst(h, st.g.heapSort[h])
 			}
 		}
@@ -532,9 +557,14 @@ func (vc *FuncVC) loopCut(st *State, li *loopInfo, prev *ssa.BasicBlock, phis []
 	env := st.specEnv(vc.pkg, vc.specVars(st))
 	vc.checkClauses(st, env, ls.Invariants, kind+".inv-entry")
 	for _, h := range sortedKeys(li.writes) {
-		if _, known := st.g.heapSort[h]; known && h != "$alive" {
+		if _, known := st.g.heapSort[h]; known && h != "$alive" && h != "$brk" {
 			st.havocHeap(h)
 		}
+	}
+	if li.writes["$brk"] {
+		old := st.cur("$brk", "(Array Int Int)")
+		st.heaps["$brk"] = st.g.heapConst("$brk", "(Array Int Int)")
+		st.assume(fmt.Sprintf("(>= (select %s 0) (select %s 0))", st.heaps["$brk"], old))
 	}
 	if li.writes["$alive"] {
 		// allocations in the loop: alive set grows monotonically
@@ -621,7 +651,7 @@ func (vc *FuncVC) frameGoals(st *State, hs []string) map[string]string {
 		}
 	}
 	for _, h := range hs {
-		if whole[h] || h == "$alive" {
+		if whole[h] || h == "$alive" || h == "$brk" {
 			continue
 		}
 		cur, ok := st.heaps[h]
